@@ -94,6 +94,10 @@ pub fn install_panic_hook() {
         // a panic inside a tracked poll must not leave tracking on for harness code
         let _ = TRACK.try_with(|t| t.set(false));
         let msg = format!("{info}");
+        // a back-end stub that is scripted to panic is a fault the simulator injects, not a finding
+        if msg.contains(crate::services::INJECTED_PANIC) {
+            return;
+        }
         if let Ok(mut all) = ALL_PANICS.lock() {
             if all.len() < 1000 {
                 all.push(msg.clone());
